@@ -16,6 +16,8 @@ import (
 	"github.com/youchainhq/go-youchain/logging"
 )
 
+var verifDefaultMaxResultsProcess = maxResultsProcess
+
 // VerifQueue wraps a real queue in full-sync mode (one component per block: the body).
 type VerifQueue struct {
 	q     *queue
@@ -42,7 +44,14 @@ type VerifPools struct {
 }
 
 // NewVerifQueue builds a queue whose result window has `window` slots and whose first expected block is origin+1.
-func NewVerifQueue(origin uint64, window int) *VerifQueue {
+// maxProc > 0 scales the package variable maxResultsProcess (the batch limit of Results, read at every call) for as long
+// as no other value is installed; 0 restores the default.  One verification queue is alive at a time.
+func NewVerifQueue(origin uint64, window int, maxProc int) *VerifQueue {
+	if maxProc > 0 {
+		maxResultsProcess = maxProc
+	} else {
+		maxResultsProcess = verifDefaultMaxResultsProcess
+	}
 	// newQueue sizes the window from the package variable blockCacheItems
 	saved := blockCacheItems
 	blockCacheItems = window
